@@ -21,7 +21,10 @@ def dropSpaces : Bytes → Bytes
   | c :: rest => if isSpace c then dropSpaces rest else c :: rest
 
 /-- decimal printing of a natural number (`ostream << unsigned`, `std::to_string`) -/
-def natToDec (n : Nat) : Bytes := (Nat.toDigits 10 n).map Char.toNat
+def natToDec (n : Nat) : Bytes :=
+  if n < 10 then [48 + n] else natToDec (n / 10) ++ [48 + n % 10]
+termination_by n
+decreasing_by omega
 
 /-! ### `strtod` restricted to decimal notation -/
 
